@@ -59,7 +59,7 @@ def rand_input(rng, g, max_len=8):
     return ''.join(rng.choice(al) for _ in range(rng.randint(0, max_len)))
 
 
-def sample_sentence(rng, p, max_depth=7):
+def sample_sentence(rng, p, max_depth=7, start='start'):
     """random derivation from lark's compiled rules → a (probably) accepted text"""
     by = {}
     for r in p.rules:
@@ -87,7 +87,7 @@ def sample_sentence(rng, p, max_depth=7):
                 return False
         return True
     try:
-        ok = go('start', max_depth)
+        ok = go(start, max_depth)
     except RecursionError:
         ok = False
     if not ok:
@@ -133,7 +133,7 @@ def spec_lattice(p, text, lexer, tm):
     return n, edges, igns
 
 
-def run_real(p, text, lexer, want_tree=False):
+def run_real(p, text, lexer, want_tree=False, start=None):
     """run the real Earley parser with column snapshots; returns dict"""
     from lark.exceptions import UnexpectedInput, UnexpectedCharacters, UnexpectedToken, UnexpectedEOF
     P = p.parser.parser
@@ -146,7 +146,7 @@ def run_real(p, text, lexer, want_tree=False):
     P.predict_and_complete = wrapped
     rec = {}
     try:
-        tree = p.parse(text)
+        tree = p.parse(text, start=start) if start is not None else p.parse(text)
         rec['ok'] = True
         if want_tree:
             rec['tree'] = tree
@@ -177,18 +177,23 @@ def _stream_case(args):
     from lark.exceptions import LarkError, UnexpectedInput, UnexpectedCharacters
     rng = random.Random(seed)
     out = []
+    # a fifth of the grammars are built with two start symbols and parsed from either: what is predicted at offset 0 (hence where an error is
+    # reported and what is expected there) must be the chosen start symbol's alone
+    others = sorted({l.split(':')[0].strip() for l in g.split('\n') if l[:1] == 'n' and ':' in l})
+    multi = rng.choice(others) if others and rng.random() < 0.2 else None
     for lexer in lexers:
         try:
             with guarded(8):
-                p = Lark(g, parser='earley', lexer=lexer)
+                p = Lark(g, parser='earley', lexer=lexer, start=['start', multi]) if multi else Lark(g, parser='earley', lexer=lexer)
         except Timeout:
             out.append({'lexer': lexer, 'build': 'timeout'}); continue
         except LarkError as e:
             out.append({'lexer': lexer, 'build': type(e).__name__ + ': ' + str(e)[:100]}); continue
         rules, nts, tm = export_rules(p)
+        st_sym = rng.choice(['start', multi]) if multi else None
         texts = []
         for _ in range(ntexts):
-            s = sample_sentence(rng, p) if rng.random() < 0.6 else None
+            s = sample_sentence(rng, p, start=st_sym or 'start') if rng.random() < 0.6 else None
             if s is not None and len(s) <= 12 and rng.random() < 0.3 and s:
                 # malformed stream: delete / insert / swap / truncate
                 k = rng.randrange(len(s)); op = rng.random()
@@ -198,9 +203,11 @@ def _stream_case(args):
             texts.append(s)
         for text in dict.fromkeys(texts):
             rec = {'lexer': lexer, 'text': text, 'rules': rules, 'tnames': {v: k for k, v in tm.items()}}
+            if multi:
+                rec['starts'] = ['start', multi]; rec['start_sym'] = st_sym; rec['start_id'] = nts[st_sym]
             try:
                 with guarded(8):
-                    rec.update(run_real(p, text, lexer))
+                    rec.update(run_real(p, text, lexer, start=st_sym))
             except Timeout:
                 rec['timeout'] = True
                 out.append(rec); continue
@@ -239,7 +246,7 @@ def earley_stream(ctx, salt, n_quick, n_thorough, ntexts=4):
         for rec in recs:
             if 'build' in rec or rec.get('timeout') or rec.get('lexfail') or rec.get('unknown_tok'):
                 flat.append((job[0], rec, None)); continue
-            cases.append({'op': 'earley', 'rules': rec['rules'], 'n': rec['n'], 'edges': rec['edges'], 'igns': rec['igns'], 'start': 0})
+            cases.append({'op': 'earley', 'rules': rec['rules'], 'n': rec['n'], 'edges': rec['edges'], 'igns': rec['igns'], 'start': rec.get('start_id', 0)})
             flat.append((job[0], rec, len(cases) - 1))
     model = run_driver_parallel(cases, timeout=900)
     return [(g, rec, model[k] if k is not None else None) for g, rec, k in flat], problems
